@@ -56,4 +56,14 @@ def grpRun (body : String) : String :=
     ";".intercalate outs
   | _ => "bad-case"
 
+/-- `egs` protocol (C10, e-graph path): `egs <omega>;<gens in the order asserted>;<queries>` — which permuted copies of a
+leaf term compare equal to it after the generators were asserted by unions, and the symmetry count of its class -/
+def egsRun (body : String) : String :=
+  match body.splitOn ";" with
+  | [omS, gensS, qS] =>
+    let omega := parseNatList omS
+    let g := mk (SlotMap.identity omega) (permsOf omega gensS)
+    String.join ((permsOf omega qS).map fun q => showOB (contains g q)) ++ ";" ++ toString (count g)
+  | _ => "bad-case"
+
 end SV.Drv
